@@ -38,6 +38,8 @@ type c07Case struct {
 	Digits []int  `json:"digits,omitempty"`
 	Mem    int    `json:"mem"`
 	Svc    int    `json:"svc"`
+	First  string `json:"first,omitempty"`  // seq part: preset of the first call
+	Second string `json:"second,omitempty"` // seq part: preset of the judged second call
 	Tab    string `json:"tab,omitempty"`
 	Imm    string `json:"imm,omitempty"` // hex of the ecalli immediate bytes
 	Gas    int64  `json:"gas,omitempty"`
@@ -567,12 +569,24 @@ func c07RunRow(r *vlib.Run, row *c07Row, mem, svc int, digits []int) {
 	pre := c07GetPre(mem, svc)
 	regs := c07Regs(row, digits)
 	_, o := c07Exec(row, mem, svc, regs)
+	c07Judge(r, row, mem, svc, regs, pre, o, c, "", true)
+}
+
+// c07Judge applies the frame oracle to one executed call: pre = snapshot before the call, o = outcome.
+// after != "" names the call that was executed before it in the same context (seq part).
+func c07Judge(r *vlib.Run, row *c07Row, mem, svc int, regs Registers, pre *c07Pre, o c07Outcome, c c07Case, after string, twin bool) {
 	r.Eval()
 	r.Transition()
 	site := "PVM." + row.Name
 	opk := "op=" + row.Name
+	if after != "" {
+		opk += " after=" + after
+	}
 	desc := func() string {
 		s := fmt.Sprintf("%s mem=%s svc=%s", row.Name, c07MemNames[mem], c07SvcNames[svc])
+		if after != "" {
+			s = "[after " + after + "] " + s
+		}
 		for _, ax := range row.Axes {
 			s += fmt.Sprintf(" w%d=%#x", ax.Reg, regs[ax.Reg])
 		}
@@ -677,7 +691,7 @@ func c07RunRow(r *vlib.Run, row *c07Row, mem, svc int, digits []int) {
 		}
 	}
 	// ---- 64-bit service ids denote no account
-	if row.SidReg >= 0 {
+	if twin && row.SidReg >= 0 {
 		v := regs[row.SidReg]
 		if v >= 1<<32 && !(row.SelfSentinel && v == c07Max) {
 			tr := regs
@@ -701,6 +715,104 @@ func c07RunRow(r *vlib.Run, row *c07Row, mem, svc int, digits []int) {
 	if r.WantSample() && len(d) > 0 && !isErr {
 		r.Sample(map[string]interface{}{"call": desc(), "exit": exit, "w7": fmt.Sprintf("%#x", o.Regs[7]), "state_leaves_changed": len(d)})
 	}
+}
+
+// ---------------------------------------------------------------------------------------------
+// two-call sequences: the frame oracle applied to a second call made in the context a first call left
+// ---------------------------------------------------------------------------------------------
+
+type c07Preset struct {
+	Name string
+	Op   OperationType
+	R    [6]uint64 // ω7..ω12
+}
+
+func c07Presets() []c07Preset {
+	scratch := c07RW + 0x800
+	return []c07Preset{
+		{"eject(victim)", EjectOp, [6]uint64{uint64(c07Victim), c07RO}},
+		{"transfer(other,10)", TransferOp, [6]uint64{uint64(c07Other), 10, 5, c07RW}},
+		{"new(import id)", NewOp, [6]uint64{c07RO, 5, 1, 2, 0, 70000}},
+		{"new(reserved 50)", NewOp, [6]uint64{c07RO, 5, 1, 2, 0, 50}},
+		{"upgrade", UpgradeOp, [6]uint64{c07RO, 7, 3}},
+		{"write(existing)", WriteOp, [6]uint64{c07RO, 1, c07RW, 1}},
+		{"write(new key)", WriteOp, [6]uint64{c07RW, 4, c07RW, 8}},
+		{"write(delete)", WriteOp, [6]uint64{c07RO, 1, 0, 0}},
+		{"read(self)", ReadOp, [6]uint64{c07Max, c07RO, 1, scratch, 0, 100}},
+		{"info(self)", InfoOp, [6]uint64{c07Max, scratch, 0, 200}},
+		{"lookup(self)", LookupOp, [6]uint64{c07Max, c07RO, scratch, 0, 100}},
+		{"solicit(new)", SolicitOp, [6]uint64{c07RW, 5}},
+		{"solicit(2 slots)", SolicitOp, [6]uint64{c07RO, 32}},
+		{"forget(empty)", ForgetOp, [6]uint64{c07RO, 0}},
+		{"forget(1 slot)", ForgetOp, [6]uint64{c07RO, 1}},
+		{"query", QueryOp, [6]uint64{c07RO, 1}},
+		{"yield", YieldOp, [6]uint64{c07RO}},
+		{"provide(self)", ProvideOp, [6]uint64{c07Max, c07RO, 1}},
+		{"checkpoint", CheckpointOp, [6]uint64{}},
+		{"bless", BlessOp, [6]uint64{uint64(c07Caller), c07BlessA, uint64(c07Caller), uint64(c07Caller), c07BlessZ, 2}},
+		{"assign(0)", AssignOp, [6]uint64{0, c07RW, uint64(c07Caller)}},
+		{"designate", DesignateOp, [6]uint64{c07RW}},
+		{"gas", GasOp, [6]uint64{}},
+		{"fetch(constants)", FetchOp, [6]uint64{scratch, 0, 64, 0, 0, 0}},
+	}
+}
+
+func c07PresetRegs(p c07Preset) Registers {
+	var rg Registers
+	for i := range rg {
+		rg[i] = 0x5E00000000000000 | uint64(i)
+	}
+	for i := 0; i < 6; i++ {
+		rg[7+i] = p.R[i]
+	}
+	return rg
+}
+
+func c07RowOf(rows []c07Row, op OperationType) *c07Row {
+	for i := range rows {
+		if rows[i].Op == op {
+			return &rows[i]
+		}
+	}
+	panic("c07: no row")
+}
+
+// c07RunSeq: first call (preset) on a fresh world, snapshot, second call (preset), frame oracle on the
+// second call relative to that snapshot.
+func c07RunSeq(r *vlib.Run, rows []c07Row, first, second c07Preset, svc int) {
+	c := c07Case{Part: "seq", First: first.Name, Second: second.Name, Mem: 0, Svc: svc}
+	w := c07Build(0, svc)
+	row1 := c07RowOf(rows, first.Op)
+	w.Regs = c07PresetRegs(first)
+	om1, tab1 := c07Omega(row1)
+	out1, p1, msg1, site1 := hcCall(om1, row1.Op, &w.Regs, w.Mem, &w.Gas, &w.Args, tab1)
+	r.Transition()
+	if p1 {
+		r.Violation(site1, "go-panic", "op="+row1.Name, "seq first call "+first.Name+": Go panic "+msg1, c)
+		return
+	}
+	res1 := hcErrName(w.Regs[7])
+	if res1 == "" || (row1.NoneIsSuccess && w.Regs[7] == NONE) {
+		res1 = "ok"
+	}
+	if out1.ExitReason != ExitContinue {
+		res1 = hcExitName(out1.ExitReason)
+	}
+	firstTag := first.Name + "=" + res1
+	w.Gas = c07GasInit
+	pre := &c07Pre{State: c07State(w), Mem: hcSnapMem(w.Mem)}
+	row2 := c07RowOf(rows, second.Op)
+	regs := c07PresetRegs(second)
+	w.Regs = regs
+	om2, tab2 := c07Omega(row2)
+	out2, p2, msg2, site2 := hcCall(om2, row2.Op, &w.Regs, w.Mem, &w.Gas, &w.Args, tab2)
+	o := c07Outcome{Panicked: p2, Msg: msg2, Site: site2, Exit: out2.ExitReason, Regs: w.Regs, Gas: w.Gas}
+	if !p2 {
+		o.State = c07State(w)
+		o.Mem = hcSnapMem(w.Mem)
+	}
+	c07Class(r, "seq first="+firstTag)
+	c07Judge(r, row2, 0, svc, regs, pre, o, c, first.Name, false)
 }
 
 // ---------------------------------------------------------------------------------------------
@@ -876,6 +988,22 @@ func TestVerif_C07(t *testing.T) {
 			c07RunID(r, rc.Tab, vlib.Unhex(rc.Imm), rc.Gas)
 			return
 		}
+		if rc.Part == "seq" {
+			var f, s2 *c07Preset
+			ps := c07Presets()
+			for i := range ps {
+				if ps[i].Name == rc.First {
+					f = &ps[i]
+				}
+				if ps[i].Name == rc.Second {
+					s2 = &ps[i]
+				}
+			}
+			if f != nil && s2 != nil {
+				c07RunSeq(r, rows, *f, *s2, rc.Svc)
+			}
+			return
+		}
 		for i := range rows {
 			if rows[i].Name == rc.Row {
 				c07RunRow(r, &rows[i], rc.Mem, rc.Svc, rc.Digits)
@@ -939,6 +1067,21 @@ func TestVerif_C07(t *testing.T) {
 			fmt.Printf("CLASS %s %d\n", k, c07Seen[k])
 		}
 	}()
+
+	// two-call sequences: every preset followed by every preset, in the service worlds with accounts
+	presets := c07Presets()
+	for _, svc := range []int{1, 2, 3} {
+		for _, f := range presets {
+			for _, s2 := range presets {
+				idx++
+				if !r.Mine(idx) {
+					continue
+				}
+				r.Space(1)
+				c07RunSeq(r, rows, f, s2, svc)
+			}
+		}
+	}
 
 	tabs := []string{"accumulate", "is_authorized", "refine"}
 	for _, tab := range tabs {
